@@ -48,9 +48,9 @@ func init() {
 				Bound: "receiver symbolic over all 256 uint8 values"},
 			{Pkg: "aac", Func: "HarnessC11_EncDec", Labels: []string{"encdec"},
 				Bound:  "config symbolic over all valid (object,index,channels); raw length in {1,2,3,24,25,248,249,2040,2041,8183,8184}; raw bytes all symbolic up to 16 bytes, beyond that 5 symbolic positions (first two, middle, last two)",
-				BoundT: "as quick, raw length over 49 values around every power of two of the 13-bit frame length (1..8184)"},
+				BoundT: "as quick, with EVERY raw length 1..8184"},
 			{Pkg: "aac", Func: "HarnessC11_Concat", Labels: []string{"concat"},
-				Bound: "2 frames (thorough: 2-3), each with symbolic valid config and 1-3 symbolic raw bytes"},
+				Bound: "2 frames (thorough: 2-3), each with symbolic valid config and 1-3 (thorough 1-6) symbolic raw bytes"},
 			{Pkg: "aac", Func: "HarnessC11_RefDecode", Labels: []string{"refdecode-crc", "refdecode-nocrc"},
 				Bound: "independent ISO 13818-7 writer: id, protection_absent, private/original/home/copyright bits, 11-bit fullness, 2 CRC bytes symbolic; profile Main/LC/SSR x index 1..12 x channels 1..7 symbolic; raw 1-4 symbolic bytes; 0-2 trailing symbolic bytes"},
 		},
@@ -88,7 +88,7 @@ func init() {
 		Assumptions: append([]string{"values are unmarshalled into fresh objects (UnmarshalBinary appends to existing SPS/PPS/NALU lists)", "nal_ref_idc < 4, nal_unit_type < 32 (the fields' widths)"}, commonAssumptions...),
 		Harnesses: []harnessSpec{
 			{Pkg: "avc", Func: "HarnessC12_NALU", Labels: []string{"nalu"}, Bound: "all 256 header bytes (symbolic), payload 0-3 symbolic bytes", BoundT: "payload also 254/255/256/65534 bytes (2 symbolic positions)"},
-			{Pkg: "avc", Func: "HarnessC12_Record", Labels: []string{"record"}, Bound: "profile/compat/level 8 symbolic bits each, lengthSizeMinusOne 0..3 symbolic, 0-2 SPS and 0-2 PPS with symbolic headers and 0-2 symbolic payload bytes, plus 17 SPS + 3 PPS of one symbolic byte each", BoundT: "counts case is 31 SPS + 255 PPS of one symbolic byte each"},
+			{Pkg: "avc", Func: "HarnessC12_Record", Labels: []string{"record"}, Bound: "profile/compat/level 8 symbolic bits each, lengthSizeMinusOne 0..3 symbolic, 0-2 SPS and 0-2 PPS with symbolic headers and 0-2 symbolic payload bytes, plus 17 SPS + 3 PPS of one symbolic byte each", BoundT: "counts case: every SPS count 0..31 x PPS count in {0,1,2,15,16,127,128,254,255}"},
 			{Pkg: "avc", Func: "HarnessC12_Sample", Labels: []string{"sample"}, Bound: "NAL length size 1..4, 0-3 NAL units with symbolic headers and 0-2 payload bytes", BoundT: "first NAL unit also at sizes 253-256, 65533-65536 where the length size allows"},
 		},
 	})
@@ -183,7 +183,7 @@ func init() {
 		Harnesses: []harnessSpec{
 			{Pkg: "rtmp", Func: "HarnessC03_Codec", Labels: []string{"codec"}, Bound: "every packet kind; Size/marshal/unmarshal/re-marshal with symbolic fields", BoundT: "strings also 255/256/65535 bytes"},
 			{Pkg: "rtmp", Func: "HarnessC03_Wire", Labels: []string{"wire"}, Bound: "requests and control packets: WritePacket on one endpoint, ReadMessage+DecodeMessage on the peer, stream id in {0,1,2}"},
-			{Pkg: "rtmp", Func: "HarnessC03_Transactions", Labels: []string{"tx", "tx-matched", "tx-unmatched"}, Bound: "histories of 3 (thorough 4) operations over {send connect, send createStream(tid symbolic > 0), receive _result(tid symbolic, body of either response type)}; ids are symbolic float64 bit patterns compared with IEEE equality"},
+			{Pkg: "rtmp", Func: "HarnessC03_Transactions", Labels: []string{"tx", "tx-matched", "tx-unmatched"}, Bound: "histories of 3 (thorough 5) operations over {send connect, send createStream(tid symbolic > 0), receive _result(tid symbolic, body of either response type)}; ids are symbolic float64 bit patterns compared with IEEE equality"},
 			{Pkg: "rtmp", Func: "HarnessC03_Expect", Labels: []string{"expect", "expect-message", "expect-packet"}, Bound: "2-3 messages of forked kinds {window ack, ping, closeStream, connect}; ExpectMessage(type) for 3 types; ExpectPacket(&*ConnectAppPacket)"},
 		},
 	})
@@ -197,7 +197,7 @@ func init() {
 		}, rtmpAssume...),
 		Harnesses: []harnessSpec{
 			{Pkg: "rtmp", Func: "HarnessC04_Concurrent", Race: true, Labels: []string{"concurrent"},
-				Bound: "1-2 requests (connect and/or createStream with symbolic distinct ids), optionally pipelined with the answers in reverse order, optionally preceded by a stray response; 2 threads, all schedules; free and slow-write transport"},
+				Bound: "1-2 (thorough 1-3) requests (connect and/or createStream with symbolic distinct ids), optionally pipelined with the answers in reverse order, optionally preceded by a stray response; 2 threads, all schedules; free and slow-write transport"},
 		},
 	})
 	reg(&propSpec{
@@ -295,7 +295,7 @@ func init() {
 			"context.WithValue/Value are interpreted from source; reflectlite.TypeOf(key).Comparable() is answered from go/types; os.Getpid is a fixed value",
 		}, commonAssumptions...),
 		Harnesses: []harnessSpec{
-			{Pkg: "logger", Func: "HarnessC18_Unique", Race: true, Labels: []string{"unique"}, Bound: "2 goroutines (thorough 2-3), each creating 1-2 contexts; all schedules; race detection"},
+			{Pkg: "logger", Func: "HarnessC18_Unique", Race: true, Labels: []string{"unique"}, Bound: "2 goroutines (thorough 2-4), each creating 1-2 contexts; all schedules; race detection"},
 			{Pkg: "logger", Func: "HarnessC18_Alias", Labels: []string{"alias-fresh", "alias-nil", "alias-src"}, Bound: "parent with or without id; source with id / without id / nil"},
 			{Pkg: "logger", Func: "HarnessC18_Rotation", Labels: []string{"rotation"}, Bound: "create, Switch to a closable / plain writer (optionally Close), create, alias, create: all ids pairwise distinct"},
 			{Pkg: "logger", Func: "HarnessC18_Prefix", Labels: []string{"prefix"}, Bound: "context kinds {nil, Cid() object, context.Context with id, context.Context without id} x {Println-style, Printf-style}; ids from {0,7,1000,-3}"},
